@@ -15,7 +15,8 @@ CONSTANTS Depth,      \* controllable steps per scenario
           Actors,     \* clients with the full alphabet
           Probes,     \* clients that only connect, run plain statements, leave
           ProbesLast, \* TRUE: probes act only after every actor has gone (hand-off scenarios)
-          Extras      \* which of the optional environment steps the histories contain: subset of {"vanish", "reap"}
+          ActorKinds, \* the message kinds actors use (Kinds, or fewer for long histories of a few kinds)
+          Extras      \* which of the optional environment steps the histories contain: subset of {"vanish", "reap", "ldown"}
 
 VARIABLE hist
 
@@ -42,8 +43,8 @@ Controllable ==
   /\ \E c \in Clients :
      /\ ProbeMay(c)
      /\ \/ Connect(c) /\ Ctl("connect", c, "")
-        \/ \E k \in Kinds : (c \in Actors \/ k \in ProbeKinds) /\ SendFirst(c, k) /\ Ctl("send", c, k)
-        \/ \E k \in Kinds : (c \in Actors \/ k \in ProbeKinds) /\ NextMsg(c, k) /\ Ctl("send", c, k)
+        \/ \E k \in Kinds : ((c \in Actors /\ k \in ActorKinds) \/ k \in ProbeKinds) /\ SendFirst(c, k) /\ Ctl("send", c, k)
+        \/ \E k \in Kinds : ((c \in Actors /\ k \in ActorKinds) \/ k \in ProbeKinds) /\ NextMsg(c, k) /\ Ctl("send", c, k)
         \/ \E k \in Kinds : "vanish" \in Extras /\ c \in Actors /\ SendFirstGone(c, k) /\ Ctl("send_vanish", c, k)
         \/ \E k \in Kinds : "vanish" \in Extras /\ c \in Actors /\ NextMsgGone(c, k) /\ Ctl("send_vanish", c, k)
         \/ "vanish" \in Extras /\ c \in Actors /\ pc[c] = "wait" /\ Vanish(c) /\ Ctl("vanish", c, "")
@@ -53,13 +54,23 @@ Controllable ==
         \/ c \in Actors /\ EarlyReturn(c) /\ Ctl("early_return", c, "")
         \/ CheckoutTimeout(c) /\ Ctl("checkout_timeout", c, "")
         \/ c \in Actors /\ pc[c] \in {"idle", "intx", "wait", "gone"} /\ Cancel(c) /\ Ctl("cancel", c, "")
+  /\ late' = late
+
+\* A cancel request made while the server's listener is down for a moment (at most twice per history).
+CancelWhileDown ==
+  /\ "ldown" \in Extras /\ MayAct
+  /\ Cardinality({i \in 1..Len(hist) : hist[i].op = "cancel_down"}) < 2
+  /\ \E c \in Actors : pc[c] \in {"intx", "idle"} /\ CancelDown(c) /\ Ctl("cancel_down", c, "")
+
+\* (deviation only) the retried request gets through at some later point of the history; not a step of the history
+LateDelivery == MayAct /\ DeliverLate /\ UNCHANGED hist
 
 \* The reaper: every idle connection is closed (the harness lets idle_timeout pass); at most once per history.
 ReapAll ==
   /\ "reap" \in Extras /\ MayAct /\ (\E s \in Conns : alive[s] /\ idle[s])
   /\ ~\E i \in 1..Len(hist) : hist[i].op = "reap"
   /\ alive' = [s \in Conns |-> alive[s] /\ ~idle[s]] /\ idle' = [s \in Conns |-> FALSE]
-  /\ UNCHANGED <<cvars, bTx, bCopy, bData, bad, dirty, tvars, cmap, viol>>
+  /\ UNCHANGED <<cvars, bTx, bCopy, bData, bad, dirty, tvars, cmap, viol, late>>
   /\ Ctl("reap", "", "")
 
 Internal ==
@@ -67,24 +78,26 @@ Internal ==
        \/ \E s \in Conns : Checkout(c, s)
        \/ Forward(c) \/ ForwardVanished(c) \/ StatementTimeout(c)
        \/ pc[c] = "cleanup" /\ EndWithCleanup(c, FALSE)
-  /\ UNCHANGED hist
+  /\ UNCHANGED <<hist, late>>
 
 \* bad: this behaviour breaks a PoolCore invariant (only possible with deviations enabled)
-Bad == viol # {} \/ ~IdleIsClean \/ ~NoLeak \/ ~MapSound \/ ~ExclusiveHold \/ ~Bounded \/ ~HoldsOnlyInTx
+Bad == viol # {} \/ ~IdleIsClean \/ ~NoLeak \/ ~MapSound \/ ~MapComplete \/ ~ExclusiveHold \/ ~Bounded \/ ~HoldsOnlyInTx
 
 Settle ==
   /\ ~InternalEnabled /\ hist # <<>> /\ ~Settled
   /\ hist' = Append(hist, [op |-> "state", c |-> "", k |-> "",
                            pcs |-> [c \in Clients |-> pc[c]],
-                           holds |-> [c \in Clients |-> held[c] # NONE], bad |-> Bad])
+                           holds |-> [c \in Clients |-> held[c] # NONE], bad |-> Bad,
+                           \* (deviations only) clients inside a transaction that a cancel request would not find
+                           unmapped |-> {c \in Clients : pc[c] = "intx" /\ held[c] # NONE /\ cmap[c] # held[c]}])
   /\ UNCHANGED vars
 
-GNext == Controllable \/ ReapAll \/ Internal \/ Settle
+GNext == Controllable \/ ReapAll \/ CancelWhileDown \/ LateDelivery \/ Internal \/ Settle
 GInit == Init /\ hist = <<>>
 GSpec == GInit /\ [][GNext]_gvars
 
 \* A history is complete when the step budget is used or nothing controllable is left.
-Complete == Settled /\ (Steps >= Depth \/ ~ENABLED (Controllable \/ ReapAll))
+Complete == Settled /\ (Steps >= Depth \/ ~ENABLED (Controllable \/ ReapAll \/ CancelWhileDown))
 EverBad == \E i \in 1..Len(hist) : hist[i].op = "state" /\ hist[i].bad
 Emit == Complete => PrintT(<<"SCENARIO", ToJson([steps |-> hist, bad |-> EverBad])>>)
 =============================================================================
